@@ -260,7 +260,7 @@ func indexGuarded(in ssa.Instruction, s, idx ssa.Value) bool {
 		if !ok {
 			continue
 		}
-		if bo.Op == token.LSS && ct.Truth && bo.X == idx {
+		if bo.Op == token.LSS && ct.Truth && (bo.X == idx || sameIntValue(bo.X, idx)) {
 			if la := lenArg(bo.Y); la != nil && sameValue(la, s) {
 				return true
 			}
@@ -746,4 +746,31 @@ func isLRUCall(c ssa.CallInstruction, method string) bool {
 	}
 	n := namedOf(f.Signature.Recv().Type())
 	return n != nil && n.Obj().Name() == "Cache" && n.Obj().Pkg() != nil && strings.HasSuffix(n.Obj().Pkg().Path(), "golang-lru")
+}
+
+// sameIntValue: a and b are the same integer up to conversions between integer types of the same width.
+func sameIntValue(a, b ssa.Value) bool {
+	strip := func(v ssa.Value) ssa.Value {
+		for {
+			cv, ok := v.(*ssa.Convert)
+			if !ok {
+				if ct, ok := v.(*ssa.ChangeType); ok {
+					v = ct.X
+					continue
+				}
+				return v
+			}
+			from, ok1 := cv.X.Type().Underlying().(*types.Basic)
+			to, ok2 := cv.Type().Underlying().(*types.Basic)
+			if !ok1 || !ok2 || from.Info()&types.IsInteger == 0 || to.Info()&types.IsInteger == 0 {
+				return v
+			}
+			// int/uint are at least 32 bits: only same-kind-width pairs are stripped
+			if basicBits(from) != basicBits(to) && !((from.Kind() == types.Int || from.Kind() == types.Int64) && (to.Kind() == types.Int || to.Kind() == types.Int64)) {
+				return v
+			}
+			v = cv.X
+		}
+	}
+	return strip(a) == strip(b)
 }
